@@ -477,8 +477,10 @@ Definition ws_block (me : tid) (c : cid) (k : task) : M unit :=
   x <- gconn c ;; pconn c {| k_inbox := k_inbox x; k_cclosed := k_cclosed x; k_sclosed := k_sclosed x; k_waiter := Some me |} ;;; block me k.
 
 (* end of a WebSocket request (upgrade or open) *)
+(* the request of a WebSocket handler returns: handle_request then drops the table entry of a session that has ended - unless the
+   handler left with an exception other than EngineIOError (RRaised), which handle_request does not catch *)
 Definition ws_request_done (me : tid) (i : sid) (r : rid) (x : resp) : M unit :=
-  emit (OResp r x) ;;; reap_if_closed i ;;; finish me.
+  emit (OResp r x) ;;; (match x with RRaised => ret tt | _ => reap_if_closed i end) ;;; finish me.
 
 (* epilogue of _websocket_handler after the writer has finished *)
 Definition ws_epilogue_end (me : tid) (i : sid) (r : rid) : M unit :=
@@ -550,7 +552,7 @@ Definition ws_probe (me : tid) (i : sid) (r : rid) (c : cid) : M unit :=
 (* Socket._upgrade_websocket + the start of _websocket_handler *)
 Definition ws_begin (me : tid) (i : sid) (r : rid) (c : cid) : M unit :=
   ss <- gsess i ;;
-  if s_upgraded ss then emit (OResp r RRaised) ;;; reap_if_closed i ;;; finish me
+  if s_upgraded ss then emit (OResp r RRaised) ;;; finish me
   else
     emit (OWsAccept c) ;;;
     if s_connected ss then (upd i (w_upgrading true) ;;; ws_probe me i r c)
